@@ -8,17 +8,25 @@ import os, vlib
 LEVEL = "model_checking"
 
 
-def replay(ctx, binary, cfg, x, label, timeout=900):
-    r = vlib.run_tlc(ctx, "MCCommit", cfg, tags=("EDGE",), timeout=timeout, workers=4)
-    vlib.require_model_ok(r, cfg)
-    ctx.add_tlc(r, label)
-    behs = vlib.dedup_prefix(r.traces)
-    res = vlib.run_driver(ctx, binary, ["-x", x], behaviours=behs, timeout=2400)
+_cache = {}
+
+
+def replay(ctx, binary, cfg, x, label, timeout=900, gno=0):
+    if cfg not in _cache:
+        r = vlib.run_tlc(ctx, "MCCommit", cfg, tags=("EDGE",), timeout=timeout, workers=4)
+        vlib.require_model_ok(r, cfg)
+        ctx.add_tlc(r, label)
+        _cache[cfg] = (r, vlib.dedup_prefix(r.traces))
+    r, behs = _cache[cfg]
+    args = ["-x", x] + (["-mode", "gno", "-n", str(gno)] if gno else [])
+    res = vlib.run_driver(ctx, binary, args, behaviours=behs, timeout=2400)
     for line in res:
         if line.get("kind") == "flaky":
             raise vlib.Inconclusive("FLAKY", "%s: %s then %s" % (line.get("key"), line.get("what"), line.get("second")))
     s = vlib.handle_driver_results(ctx, res)
-    if s.get("gate_drift", 0):
+    if s.get("stuck_steps", 0) >= 3:
+        raise vlib.Inconclusive("TIMEOUT", "%s: a goroutine the schedule says is runnable did not reach its gate (%s)" % (label, s.get("drift_samples")))
+    if s.get("gate_drift", 0) and not s.get("violating", 0):
         raise vlib.Inconclusive("GATE-DRIFT", "%s: %d schedules left the model: %s" % (label, s["gate_drift"], s.get("drift_samples")))
     if not s.get("queries_ok"):
         raise vlib.Inconclusive("VACUOUS", "%s: no query completed" % label)
@@ -27,9 +35,9 @@ def replay(ctx, binary, cfg, x, label, timeout=900):
     ctx.add("queries_run", int(s.get("queries", 0)))
     ctx.add("queries_ok", int(s.get("queries_ok", 0)))
     ctx.add("query_results_differing_from_code_model", int(s.get("query_drift", 0)))
-    ctx.cov.setdefault("replays", []).append({"cfg": cfg, "x": x, "edges": len(r.traces), "behaviours": len(behs),
+    ctx.cov.setdefault("replays", []).append({"cfg": cfg, "x": x, "app": "gno.land" if gno else "plain BaseApp", "edges": len(r.traces), "behaviours": int(s.get("behaviours", 0)),
                                               "violating": int(s.get("violating", 0)), "by_key": s.get("violations_by_key")})
-    ctx.log("%s: %d edges -> %d behaviours replayed, %d queries, %d violating" % (label, len(r.traces), len(behs), s.get("queries", 0), s.get("violating", 0)))
+    ctx.log("%s%s: %d edges -> %d behaviours replayed, %d queries, %d violating" % (label, " [gno.land app]" if gno else "", len(r.traces), s.get("behaviours", 0), s.get("queries", 0), s.get("violating", 0)))
     return s
 
 
@@ -65,6 +73,13 @@ def run(ctx):
         replay(ctx, binary, "Commit_code_qe.cfg", "snap=1,keep=-1,maxver=3", "code structure (DB-wrapper and logger gates), snapshots")
         ctx.cov["skipped"] = ["schedules that separate LastBlockHeight()|acquire and snapshot swap|setLastCommitID: tm2/pkg/verifhook is not in the tree (hooks/verifhook-rootmulti.diff)"]
     replay(ctx, binary, "Commit_nosnap_qe.cfg", "snap=0,keep=-1,maxver=3", "backend without snapshots (ImmutableDB fallback)")
+    # the same schedules on the real gno.land application (vm/qeval and .app/simulate of a realm function
+    # that returns its counter - base store - and its coins - main store)
+    ng = 40 if ctx.tier == "quick" else 600
+    if hooks:
+        replay(ctx, binary, "Commit_codef_qe.cfg", "snap=1,fine=1", "code structure with yield hooks, snapshots", gno=ng)
+    else:
+        replay(ctx, binary, "Commit_code_qe.cfg", "snap=1", "code structure (DB-wrapper and logger gates), snapshots", gno=ng)
     if ctx.tier == "thorough":
         replay(ctx, binary, "Commit_codep_qe.cfg", "snap=1,keep=0,maxver=3", "code structure, KeepRecent=0 (queries racing pruning)")
         if hooks:
